@@ -326,9 +326,9 @@ def run_atheris(ctx, fam, n):
 
 FAMILIES = [
     Family('fixed', check_any, enumerate=enum_fixed),
-    Family('valid', check_any, strategy=lambda tier: valid_text().map(lambda t: dict(kind='valid', text=t)), n=(1500, 60000)),
+    Family('valid', check_any, strategy=lambda tier: valid_text().map(lambda t: dict(kind='valid', text=t)), n=(4000, 60000)),
     Family('prefixes', check_any, strategy=lambda tier: valid_text().map(lambda t: dict(kind='prefixes', text=t)), n=(160, 6000)),
-    Family('mutated', check_any, strategy=lambda tier: mutated_text(), n=(6000, 300000)),
+    Family('mutated', check_any, strategy=lambda tier: mutated_text(), n=(15000, 300000)),
     Family('random-text', check_any, strategy=lambda tier: random_text().map(lambda t: dict(kind='random', text=t)), n=(3000, 200000)),
     # thorough tier only: one libFuzzer campaign per shard (empty corpus on even shards, seeded on odd ones)
     Family('atheris', lambda ctx, case: judge(ctx, case['text'], 'atheris'), stateful=run_atheris, n=(0, 16 * 250000)),
